@@ -99,10 +99,14 @@ Inductive expect := XFail | XSilent | XOk (enf : list event).
 
 Definition enforce_events (supplied : list signer) (cr : ctx * rule) : list event :=
   let '(c, r) := cr in map (fun p => EEnforce p c (counted r supplied) r) (r_policies r).
-Definition enforce_accepts (M : modes) (ev : event) : bool :=
-  match ev with
-  | EEnforce p c au r => enf_answer M p c au r
-  | _ => true
+(* the enforce hooks accept, one after the other: each call sees the effects of the calls before it
+   (the spending-limit policy records what the earlier contexts of the batch spent) *)
+Fixpoint enforce_seq_ok (M : modes) (pre : list event) (evs : list event) : bool :=
+  match evs with
+  | [] => true
+  | EEnforce p c au r :: rest =>
+      enf_answer M pre p c au r && enforce_seq_ok M (pre ++ [EEnforce p c au r]) rest
+  | _ :: _ => false
   end.
 
 Fixpoint all_some {A} (l : list (option A)) : option (list A) :=
@@ -125,7 +129,7 @@ Definition expectation (T : list rule) (M : modes) (now : Z) (auths : list addr)
         then XSilent                                            (* a consulted can_enforce hook traps *)
         else
           let enf := flat_map (enforce_events supplied) (combine cs rs) in
-          if forallb (enforce_accepts M) enf then XOk enf       (* must succeed, enforcing exactly enf *)
+          if enforce_seq_ok M [] enf then XOk enf               (* must succeed, enforcing exactly enf *)
           else XFail                                            (* an enforcement hook refuses *)
     end.
 
@@ -260,6 +264,10 @@ Definition auth_step (m : mstate) (it : item) : bool :=
       agrees_sound (expectation T (ms_modes m) now auths sigs [CCall self (fn_of op)]) out
   | CheckAuth sigs auths cs | Invoke sigs auths cs =>
       agrees (expectation T (ms_modes m) now auths sigs cs) out
+  | SetThreshold via sigs auths _ _ _ =>
+      (* called directly, the policy contract is on the call stack and cannot be re-entered *)
+      agrees_sound (expectation T (if via then ms_modes m else mark_busy (ms_modes m)) now auths sigs
+                      [if via then CCall self fn_execute else CCall thr_callee fn_set_threshold]) out
   | _ => true
   end.
 
@@ -295,8 +303,11 @@ Definition mon_next (m : mstate) (it : item) : mstate :=
   let '(cl, out, ob) := it in
   mkM (match cl, out with
        | SetMode p id md, _ => set_mode p id md (ms_modes m)
-       (* the install / uninstall calls the real threshold policy was seen to receive *)
-       | Construct _ _, Ok (_, l) | Admin _ _ _, Ok (_, l) => apply_log (ms_modes m) l
+       | Advance n, Ok _ => adv_modes n (ms_modes m)
+       (* the install / uninstall / enforce calls the real policies were seen to receive *)
+       | Construct _ _, Ok (_, l) | Admin _ _ _, Ok (_, l)
+       | CheckAuth _ _ _, Ok (_, l) | Invoke _ _ _, Ok (_, l) => apply_log (ms_modes m) l
+       | SetThreshold _ _ _ id t _, Ok (_, l) => set_thr id t (apply_log (ms_modes m) l)
        | _, _ => ms_modes m
        end)
       (match cl, out with Construct _ _, Ok _ => true | _, _ => ms_deployed m end)
